@@ -169,13 +169,19 @@ pub fn steer(rng: &mut Rng, spec: &mut TreeSpec, expr: &str, n: usize) {
 }
 
 pub fn tree(rng: &mut Rng, max_nodes: usize, links: bool, faults: bool) -> TreeSpec {
-    TreeGen {
+    let mut spec = TreeGen {
         max_depth: 4,
         max_nodes,
         links,
         faults,
     }
-    .generate(rng)
+    .generate(rng);
+    // One tree in five also has names that are not valid UTF-8 (not under the syscall tier, whose
+    // trace parser works on text).
+    if rng.chance(1, 5) && !crate::walkrun::syscall_markers_enabled() {
+        spec.plant_raw(rng);
+    }
+    spec
 }
 
 #[derive(Clone, Debug)]
@@ -353,6 +359,10 @@ pub fn describe_tree(spec: &TreeSpec) -> serde_json::Value {
                 };
                 serde_json::json!([n.rel, k])
             })
+            .chain(spec.raw.iter().map(|r| {
+                let bytes: String = r.rel.iter().map(|b| if b.is_ascii_graphic() && *b != b'\\' { (*b as char).to_string() } else { format!("\\x{:02X}", b) }).collect();
+                serde_json::json!([bytes, if r.is_dir { "dir(raw bytes)" } else { "file(raw bytes)" }])
+            }))
             .collect(),
     )
 }
